@@ -1,6 +1,8 @@
 package c13
 
 import (
+	"verifharness/scratch"
+
 	"bytes"
 	"fmt"
 	"go/build"
@@ -287,16 +289,16 @@ func newWorkspace(t *testing.T, rec *kit.Rec) *workspace {
 	sweepStale()
 	root, err := os.MkdirTemp("", "verif-c13-*")
 	if err != nil {
-		return fail("C13|infra|tempdir", "%v", err)
+		return fail("HARNESS|infra|tempdir", "%v", err)
 	}
 	w.root = root
 	t.Cleanup(func() { _ = os.RemoveAll(root) })
 	if w.src, err = readTree(repoPath()); err != nil {
-		return fail("C13|infra|read-tree", "reading %s: %v", repoPath(), err)
+		return fail("HARNESS|infra|read-tree", "reading %s: %v", repoPath(), err)
 	}
 	w.mod = modulePath(w.src)
 	if w.dirs, w.skipped, err = discover(w.src); err != nil {
-		return fail("C13|infra|discover", "%v", err)
+		return fail("HARNESS|infra|discover", "%v", err)
 	}
 	byDir := map[string]*dirTask{}
 	var order []string
@@ -317,11 +319,11 @@ func newWorkspace(t *testing.T, rec *kit.Rec) *workspace {
 	// Build every generator of this module once, from a copy of the tree.
 	buildDir := filepath.Join(root, "build")
 	if err := writeTree(w.src, buildDir); err != nil {
-		return fail("C13|infra|copy", "%v", err)
+		return fail("HARNESS|infra|copy", "%v", err)
 	}
 	binDir := filepath.Join(root, "bin")
 	if err := os.MkdirAll(binDir, 0o755); err != nil {
-		return fail("C13|infra|copy", "%v", err)
+		return fail("HARNESS|infra|copy", "%v", err)
 	}
 	var genDirs []string
 	seenBase := map[string]string{}
@@ -337,7 +339,7 @@ func newWorkspace(t *testing.T, rec *kit.Rec) *workspace {
 			base = path.Base(w.mod)
 		}
 		if other, clash := seenBase[base]; clash {
-			return fail("C13|infra|generator-names", "generators %s and %s have the same base name; not supported by this harness", other, d.GenDir)
+			return fail("HARNESS|infra|generator-names", "generators %s and %s have the same base name; not supported by this harness", other, d.GenDir)
 		}
 		seenBase[base] = d.GenDir
 		// genfp.Generate writes path.Base(os.Args[0]) into the header, `go run` names
@@ -353,6 +355,9 @@ func newWorkspace(t *testing.T, rec *kit.Rec) *workspace {
 		}
 		var r cmdResult
 		withBeat(rec, func() { r = runCmd(buildDir, childEnv(), genTimeout, "go", args...) })
+		if r.Exit != 0 && scratch.ToolchainTrouble(r.Out) {
+			return fail("HARNESS|infra|toolchain-trouble", "go %s: %s", strings.Join(args, " "), tail(r.Out, 10))
+		}
 		if r.Exit != 0 {
 			return fail("C13|repo|generator-build-failed", "go %s (in a copy of the tree) failed with exit status %d:\n%s", strings.Join(args, " "), r.Exit, tail(r.Out, 40))
 		}
@@ -549,7 +554,7 @@ func generatorFailures(r *runResult) []finding {
 	var fs []finding
 	for _, dr := range r.Dirs {
 		if dr.Err != nil {
-			fs = append(fs, finding{"C13|infra|copy:" + dr.Task.Dir, dr.Err.Error()})
+			fs = append(fs, finding{"HARNESS|infra|copy:" + dr.Task.Dir, dr.Err.Error()})
 			continue
 		}
 		seen := map[string]bool{}
@@ -566,6 +571,12 @@ func generatorFailures(r *runResult) []finding {
 				why = fmt.Sprintf("killed after %v", genTimeout)
 			} else if run.Exit == 0 {
 				why = "exit status 0 but panic output"
+			}
+			if scratch.ToolchainTrouble(run.Out) || run.TimedOut {
+				// the environment failed under the generator (build cache trimmed by another process, disk,
+				// memory) or the machine was too busy: nothing decided about the generator
+				fs = append(fs, finding{"HARNESS|infra|toolchain-trouble:" + dr.Task.Dir, fmt.Sprintf("directive %s in %s: %s\n%s", run.D, dr.Task.Dir, why, tail(run.Out, 10))})
+				continue
 			}
 			fs = append(fs, finding{
 				Sig: fmt.Sprintf("C13|repo|generator-failed:%s:%s", dr.Task.Dir, run.D.Gen),
